@@ -68,6 +68,12 @@ func (c Call) String() string {
 		return fmt.Sprintf("AddTask(&Task{ID:t%02d, Fn:nil})", c.T)
 	case "addnoid":
 		return "AddTask(&Task{ID:\"\"})"
+	case "dfs":
+		return "DepthFirstSort()"
+	case "validate":
+		return "Validate(nil)"
+	case "string":
+		return "String()"
 	}
 	return c.Op
 }
@@ -387,14 +393,18 @@ func buildCalls(r *simrt.RNG, n int, deps [][]int, retries []int, mode string, m
 		copy(calls[pos+1:], calls[pos:])
 		calls[pos] = c
 	}
-	if mode != "wild" {
-		return calls
-	}
 	ins := func(c Call) {
 		pos := r.Intn(len(calls) + 1)
 		calls = append(calls, Call{})
 		copy(calls[pos+1:], calls[pos:])
 		calls[pos] = c
+	}
+	// read-only API calls in the middle of the construction (state reused across calls must not go stale)
+	for k := r.Intn(3); k > 0 && r.Intn(2) == 0; k-- {
+		ins(Call{Op: []string{"dfs", "dfs", "validate", "string"}[r.Intn(4)]})
+	}
+	if mode != "wild" {
+		return calls
 	}
 	// cycles: 35 %
 	if r.Intn(100) < 35 {
